@@ -111,6 +111,11 @@ def compare(replica, snap, version, seen_only=False):
             for k in sorted(set(a) | set(b)):
                 if seen_only and ch == "defaults" and not (replica.visible.get(k) or snap["visible"].get(k)):
                     continue
+                if seen_only and ch == "defaults" and k in snap["values"] and snap["values"][k] is None:
+                    # a numeric option that evaluates to no value at all (no default, user value out of range) is written
+                    # as `CONFIG_X=`, which cannot be loaded back: outside the well-formed space (every numeric option
+                    # has a usable fallback); only generated here to exercise the null channel of the protocol
+                    continue
                 if a.get(k, "<absent>") != b.get(k, "<absent>"):
                     out.append((ch, k, a.get(k, "<absent>"), b.get(k, "<absent>")))
         for ch in ("values", "ranges"):
